@@ -138,6 +138,23 @@ pub struct World {
   pub consistency: Result<(), String>,
 }
 
+/// Sizes of the listings of a state, chosen so that over the states of a run every paginated listing
+/// has 99, 100, 101, 199, 200 and 201 elements (page size 100): for `c` children of the first parent
+/// (all created by one transaction in one block: the same count for the listing of that block)
+/// -> (how many of them are moved to other sats by a pointer, so that the parent's sat carries
+///     1 + c - pointer_kids inscriptions; how many parents the many-parents inscription names)
+pub fn plan(c: u64) -> (u64, u64) {
+  match c {
+    100 => (0, 101), // sat 101
+    101 => (2, 99),  // sat 100
+    99 => (1, 100),  // sat 99
+    200 => (0, 201), // sat 201
+    201 => (2, 199), // sat 200
+    199 => (1, 200), // sat 199
+    _ => (c / 7, c + 1),
+  }
+}
+
 fn null_outpoint() -> bitcoin::OutPoint {
   bitcoin::OutPoint::null()
 }
@@ -167,12 +184,13 @@ impl World {
     node.core.mine_blocks(1);
     let parent = ord::InscriptionId { txid: parent_tx, index: 0 };
     let (ph, pt) = tx_pos(&node.core, parent_tx);
+    let (pointer_kids, nparents) = plan(r.nchildren);
     let kids: Vec<ord::Inscription> = (0..r.nchildren)
       .map(|k| {
         let mut i = plain(&mut rng, "kid");
         i.parents = vec![id_value(parent)];
-        if k % 7 == 3 {
-          // spread some children over other sats of the same output
+        if k >= r.nchildren - pointer_kids {
+          // the last children go to other sats of the same output, so that the parent's sat carries exactly `on_sat` inscriptions
           let mut p = (1000 + k).to_le_bytes().to_vec();
           while p.last() == Some(&0) {
             p.pop();
@@ -200,10 +218,11 @@ impl World {
     let p2 = ord::InscriptionId { txid: p2_tx, index: 0 };
     let (p2h, p2t) = tx_pos(&node.core, p2_tx);
     let mut g = plain(&mut rng, "grandchild");
-    // parents: the second parent, the first parent, every child of the first parent (they all sit in the
-    // output spent by the third input: more than one page of parents) and an id that does not exist
-    g.parents = vec![id_value(p2), id_value(parent)];
-    for k in 0..r.nchildren {
+    // parents: the second parent, the first `nparents - 1` children of the first parent (they all sit in the
+    // output spent by the third input) and an id that does not exist; the first parent itself is not named,
+    // so that it has exactly `nchildren` children
+    g.parents = vec![id_value(p2)];
+    for k in 0..(nparents - 1).min(r.nchildren) {
       g.parents.push(id_value(ord::InscriptionId { txid: kids_tx, index: k as u32 }));
     }
     g.parents.push(id_value(missing(7)));
@@ -864,14 +883,16 @@ fn check_relative(w: &World, v: &Value, seq: u32, bad: &mut impl FnMut(String), 
 // ---------------------------------------------------------------- generator
 
 pub fn gen(rng: &mut Rng, tier: &str) -> Vec<Line> {
-  let nstates = if tier == "thorough" { 9 } else { 3 };
+  let nstates = if tier == "thorough" { 12 } else { 6 };
   let mut out = Vec::new();
   for s in 0..nstates {
+    // listing sizes 100, 101, 99, 200, 201, 199 in turn (see `plan`); the last state of the quick tier and the
+    // second half of the thorough tier have no sat index
     let recipe = Recipe {
       seed: rng.next() >> 8,
-      index_sats: s % 3 != 2,
-      nchildren: *rng.pick(&[101u64, 105, 199, 200, 201, 230]),
-      nplain: rng.range(2, 6),
+      index_sats: if tier == "thorough" { s < 6 } else { s != 5 },
+      nchildren: [100u64, 101, 99, 200, 201, 199][s % 6],
+      nplain: rng.range(2, 5),
     };
     let w = World::build(&recipe);
     let t = &w.tables;
@@ -882,7 +903,7 @@ pub fn gen(rng: &mut Rng, tier: &str) -> Vec<Line> {
       (0..ne).filter(|s| *s < 6 || *s > ne - 40 || s % 5 == 0).collect()
     } else {
       // every interesting inscription + a stride through the many children
-      (0..ne).filter(|s| *s < 3 || *s > ne - 22 || s % 47 == 0).collect()
+      (0..ne).filter(|s| *s < 3 || *s > ne - 18 || s % 97 == 1).collect()
     };
     let huge_pages = [u64::MAX, u64::MAX / 100 + 1, 184467440737095517, 1 << 32, (1 << 32) - 1];
     for &s in sample.iter().chain([ne, ne + 5].iter()) {
@@ -923,7 +944,7 @@ pub fn gen(rng: &mut Rng, tier: &str) -> Vec<Line> {
     }
     let mut by_count: Vec<(usize, u64)> = t.sats.iter().map(|x| (x.1.len(), x.0)).collect();
     by_count.sort_by(|a, b| b.cmp(a));
-    let mut sats: Vec<u64> = by_count.iter().map(|x| x.1).take(if tier == "thorough" { 40 } else { 7 }).collect();
+    let mut sats: Vec<u64> = by_count.iter().map(|x| x.1).take(if tier == "thorough" { 40 } else { 5 }).collect();
     sats.push(1);
     sats.push(2_099_999_997_689_999);
     for sat in &sats {
@@ -940,7 +961,11 @@ pub fn gen(rng: &mut Rng, tier: &str) -> Vec<Line> {
       }
       reqs.push(Req { op: 11, a: (*sat).into(), has_page: false, page: 0 });
     }
-    for (h, _) in &t.heights {
+    for (k, (h, last)) in t.heights.iter().enumerate() {
+      let empty = k > 0 && t.heights[k - 1].1 == *last;
+      if tier != "thorough" && empty && k > 2 {
+        continue;
+      }
       reqs.push(Req { op: 8, a: (*h).into(), has_page: false, page: 0 });
       for page in [0u64, 1, 2, 3, u32::MAX.into()] {
         reqs.push(Req { op: 8, a: (*h).into(), has_page: true, page });
